@@ -212,15 +212,19 @@ def apply_views(s, op):
         s.x = 3 - s.x
         s.mod.X = s.x
         return probs
-    if op[0] == "move_internal":
+    if op[0] in ("move_internal", "new_internal"):
         # the internal directory is lost and a new, empty one is configured at another place; the data directories stay
         # (their links dangle until the paths are kept again)
         if s.moves >= 1:
             return probs   # one move per history keeps the space finite
-        shutil.rmtree(os.path.join(s.root, "stores", s.internal), ignore_errors=True)
+        if op[0] == "move_internal":
+            shutil.rmtree(os.path.join(s.root, "stores", s.internal), ignore_errors=True)
+        # (new_internal: the old directory stays where it is - the links of the data directories still lead to its blobs,
+        # which are not blobs of the store configured now)
         s.moves += 1
         s.internal = f"shared_internal_{s.moves}"   # never a location used before: the old links cannot come back to life
-        s.committed = {1: None, 2: None}
+        if op[0] == "move_internal":
+            s.committed = {1: None, 2: None}
         s.blobs = set()
         return probs
     v = op[1]
@@ -243,6 +247,10 @@ def apply_views(s, op):
         if s.committed[v] is None:
             if r[0] == "ok":
                 bad("view_not_independent", f"view {v} never committed {path} but load returned {r[1]!r}")
+        elif s.committed[v] not in s.blobs:
+            # the view's links lead to a key that the internal directory configured now does not hold
+            if r[0] == "ok":
+                bad("served_without_blob", f"load({path}) in view {v} returned {r[1]!r} although the configured internal directory does not hold the key")
         else:
             c = s.committed[v]
             want = fmt % ((c, c) if path == "/one" else (c,))
@@ -255,7 +263,7 @@ def key_views(s):
     return (s.x, s.internal, tuple(sorted(s.committed.items())), tuple(sorted(s.blobs)), tree(os.path.join(s.root, "stores")))
 
 
-VIEW_OPS = [("keep", 1), ("keep", 2), ("edit",), ("move_internal",), ("load", 1, "/one"), ("load", 2, "/one"), ("load", 1, "/x/y"), ("load", 2, "/x/y")]
+VIEW_OPS = [("keep", 1), ("keep", 2), ("edit",), ("move_internal",), ("new_internal",), ("load", 1, "/one"), ("load", 2, "/one"), ("load", 1, "/x/y"), ("load", 2, "/x/y")]
 
 
 def _views_job(items):
